@@ -27,9 +27,19 @@ def menu(f, with_queries=False, full=True):
     """Operation descriptors enabled in state f, simplest first.  'dom' says
     whether the instance lies in the documented domain (DESIGN 3.1)."""
     dims, vars_ = _structure(f)
-    dn = list(dims)
     ops = []
     coords = set(f.getCoords()) if hasattr(f, 'getCoords') else set()
+    # convention-bound files (IOAPI / CAMx readers): VAR and DATE-TIME are
+    # metadata dimensions and TFLAG/ETFLAG metadata variables; operating on
+    # them, or renaming/reordering convention dimensions, dismantles the
+    # convention and is outside the documented domain
+    conv = 'TFLAG' in vars_ and 'VAR' in dims and 'DATE-TIME' in dims
+    META = ('VAR', 'DATE-TIME') if conv else ()
+    isio = conv and any(c.__name__ == 'ioapi_base' for c in type(f).__mro__)
+    # arithmetic on convention files is only meaningful when the time flags
+    # are registered as coordinate variables (then they are passed through)
+    flags_are_coords = all(k in coords for k in ('TFLAG', 'ETFLAG') if k in vars_)
+    dn = [d for d in dims if d not in META]
 
     def add(op, dom=True, **kw):
         d = {'op': op, 'dom': bool(dom)}
@@ -41,12 +51,14 @@ def menu(f, with_queries=False, full=True):
         d0, dl = dn[0], dn[-1]
         add('slice', dims[d0] >= 1, sel=[[d0, ['i', 0]]])
         add('slice', dims[dl] >= 1, sel=[[dl, ['i', -1]]])
-        add('slice', True, sel=[[d0, ['s', 1, None, None]]])
+        add('slice', not (conv and dims[d0] <= 1), sel=[[d0, ['s', 1, None, None]]])
+        if conv:
+            add('slice', False, sel=[['VAR', ['i', -1]]])     # out-of-domain probe
         add('slice', dims[dl] >= 1, sel=[[dl, ['l', [0, -1]]]])
         # zipped selection over the first two dimensions some variable carries together
         pair = None
-        for vd, dt in vars_.values():
-            if len(vd) >= 2:
+        for vk_, (vd, dt) in vars_.items():
+            if len(vd) >= 2 and not any(x in META for x in vd):
                 pair = (vd[0], vd[-1])
                 break
         if pair and pair[0] != pair[1]:
@@ -57,11 +69,14 @@ def menu(f, with_queries=False, full=True):
             num = _numeric_along(vars_, d)
             add('apply', num and dims[d] >= 1, dim=d, fn=['r', 'mean'])
             add('apply', num and dims[d] >= 1, dim=d, fn=['r', 'max'])
-            add('apply', num and dims[d] >= 1 and lens_ok, dim=d, fn=['f', 'diff'])
-        add('stack', True, dim=d0)
+            add('apply', num and dims[d] >= 1 and lens_ok and not (conv and dims[d] <= 1),
+                dim=d, fn=['f', 'diff'])
+        # convention files: only stacking in time is documented (the vertical
+        # / horizontal grid description cannot be derived for other axes)
+        add('stack', not conv or d0 == 'TSTEP', dim=d0)
         if full and d0 != dl:
-            add('stack', True, dim=dl)
-    vn = list(vars_)
+            add('stack', not conv or dl == 'TSTEP', dim=dl)
+    vn = [k for k in vars_ if not (conv and k in ('TFLAG', 'ETFLAG'))]
     if vn:
         v0 = vn[0]
         add('subset', True, keys=[v0])
@@ -72,25 +87,26 @@ def menu(f, with_queries=False, full=True):
     if dn:
         newd = next((n for n in ('rd1', 'rd2') if n not in dims), None)
         if newd:
-            add('renameDimension', True, old=dn[0], new=newd)
+            add('renameDimension', not conv, old=dn[0], new=newd)
         if 'ins' not in dims:
-            add('insertDimension', True, name='ins', n=2)
+            add('insertDimension', not conv, name='ins', n=2)
         if 'ins1' not in dims:
-            add('insertDimension', True, name='ins1', n=1, before=dn[-1])
-        add('removeSingleton', True)
+            add('insertDimension', not conv, name='ins1', n=1, before=dn[-1])
+        add('removeSingleton', not conv)
         if len(dn) >= 2:
-            add('reorderDimensions', True, old=dn, new=dn[::-1])
+            add('reorderDimensions', not conv, old=dn, new=dn[::-1])
     allnum = all(dt.kind in NUM for (vd, dt) in vars_.values())
     noncoord_num = all(dt.kind in NUM for k, (vd, dt) in vars_.items() if k not in coords)
     add('mask', allnum, greater=2000.5)
-    numvars = [k for k, (vd, dt) in vars_.items() if dt.kind in NUM and len(vd) >= 1]
+    numvars = [k for k, (vd, dt) in vars_.items() if dt.kind in NUM and len(vd) >= 1
+               and not (conv and k in ('TFLAG', 'ETFLAG'))]
     if numvars:
         nv = next((n for n in ('N1', 'N2') if n not in vars_), None)
         if nv:
             add('eval', True, expr='%s = %s * 2' % (nv, numvars[0]))
             add('eval', True, expr='%s = %s + 1' % (nv, numvars[-1]), copyall=True)
-    add('binop', noncoord_num, o='+')
-    add('binop', noncoord_num, o='/')
+    add('binop', noncoord_num and (not conv or flags_are_coords), o='+')
+    add('binop', noncoord_num and (not conv or flags_are_coords), o='/')
     if 'x' in vars_ and vars_['x'][0] == ('x',) and dims.get('x', 0) >= 2 \
             and vars_['x'][1].kind in NUM:
         xv = np.asarray(f.variables['x'][...], dtype='d')
@@ -103,7 +119,7 @@ def menu(f, with_queries=False, full=True):
     if full:
         add('getvarpnc', True)
         if dn:
-            add('removesingleton_f', True, dim=dn[0])
+            add('removesingleton_f', not conv, dim=dn[0])
             add('slice_dim_f', dims[dn[0]] >= 1, dim=dn[0])
             add('reduce_dim_f', dims[dn[-1]] >= 1 and _numeric_along(vars_, dn[-1]), dim=dn[-1])
     return ops
@@ -157,7 +173,10 @@ def do_op(f, op):
         mids = (xv[:-1] + xv[1:]) / 2.
         return f.interpDimension(op['dim'], mids)
     if name == 'from_ncf':
-        return type(f).from_ncf(f) if hasattr(type(f), 'from_ncf') else P.PseudoNetCDFFile.from_ncf(f)
+        from PseudoNetCDF.cmaqfiles._ioapi import ioapi_base
+        if isinstance(f, ioapi_base):
+            return ioapi_base.from_ncf(f)
+        return P.PseudoNetCDFFile.from_ncf(f)
     from PseudoNetCDF.core import _functions as F
     if name == 'getvarpnc':
         return F.getvarpnc(f, None)
